@@ -125,21 +125,51 @@ def make_stub(c: Contract, counter):
                 return _vector_stub(stub, fn, a, is_method)
         k = counter[0]
         counter[0] += 1
-        for j, r in enumerate(c.requires(a)):
+        reqs = list(c.requires(a))
+        for j, r in enumerate(reqs):
             Ctx.call_obl.append((f"call[{k}]:{c.short}.requires#{j}", r, len(Ctx.facts)))
         if c.spec is not None:
             res = c.spec(a)
         else:
-            names = c.result_names or ("res",)
-            fresh = tuple(Sym(z3.Real(f"{c.short}.{n}!{k}")) for n in names)
-            res = fresh if len(fresh) > 1 else fresh[0]
+            res = uf_result(c, a)
         for name, ens in c.ensures.items():
             f = ens(a, res)
             if f is not None:
-                Ctx.facts.append(f)
+                # the callee's postcondition is available only where its precondition holds
+                Ctx.facts.append(z3.Implies(z3.And(*reqs), f) if reqs else f)
         return res
     stub.__name__ = f"stub<{c.short}>"
     return fn, stub
+
+
+def _flat_numeric(a):
+    out = []
+    for k, v in a.items():
+        if k == "self":
+            continue
+        if isinstance(v, Sym):
+            out.append(v)
+        elif isinstance(v, dict):
+            for kk in sorted(v):
+                if isinstance(v[kk], Sym):
+                    out.append(v[kk])
+    return out
+
+
+def uf_result(c: Contract, a):
+    """Result of a contract without explicit spec: applications of uninterpreted functions (one per result
+    name) to the numeric arguments.  Pure functions of their arguments - the same call yields the same term."""
+    names = c.result_names or ("res",)
+    xs = _flat_numeric(a)
+    d = frozenset().union(*[x.d for x in xs]) if xs else frozenset()
+    outs = []
+    for n in names:
+        if xs:
+            f = z3.Function(f"{c.short}.{n}", *([z3.RealSort()] * (len(xs) + 1)))
+            outs.append(Sym(f(*[x.e for x in xs]), d=d))
+        else:
+            outs.append(Sym(z3.Real(f"{c.short}.{n}")))
+    return tuple(outs) if len(outs) > 1 else outs[0]
 
 
 def _vector_stub(stub, fn, a, is_method):
